@@ -386,6 +386,26 @@ class Machine:
                     pass
                 if s.get('inc') is not None:
                     self.expr(s['inc'], fr)
+        elif k in ('while', 'do'):
+            n = 0
+            first = (k == 'do')
+            while True:
+                if not first:
+                    c = self.int_value(s['c'], fr) if s.get('c') is not None else 1
+                    if c is None:
+                        raise Unsupported('loop condition at %s' % loc_str(s))
+                    if not c:
+                        break
+                first = False
+                n += 1
+                if n > 5000:
+                    raise Unsupported('loop bound at %s' % loc_str(s))
+                try:
+                    self.stmt(s['body'], fr)
+                except _Break:
+                    break
+                except _Continue:
+                    pass
         elif k == 'switch':
             c = self.int_value(s['c'], fr)
             if c is None:
